@@ -123,6 +123,7 @@ class World:
         self.vtime = VTime(self)
         self.sink = Sink(self)
         self.armed = None            # fault dict for the next engine call
+        self.int_noise = None        # buggify: integer entries of a MILP answer come back within the engine's tolerance only
         self.fired = {}              # kind -> count (faults that actually fired)
         self.calls = []              # (engine, healthy?) per engine call
         self.last_x = {}             # engine -> last healthy x (for 'stale')
@@ -195,6 +196,17 @@ def _scipy_proxy(which):
                 res.fun = None if res.x is None else res.fun
             except Exception:
                 pass
+        elif which == 'milp' and w.int_noise and getattr(res, 'status', 1) == 0 and res.x is not None:
+            # legal engine behaviour made frequent: HiGHS returns integer columns only up to its integrality tolerance
+            # (1e-6); here every non-zero integer entry comes back a hair closer to zero (4.9999999996 instead of 5)
+            import numpy as np
+            integ = np.asarray(kw.get('integrality', a[4] if len(a) > 4 else 0))
+            if integ.ndim and integ.shape == res.x.shape and (integ > 0).any():
+                x = np.array(res.x, float)
+                m_ = (integ > 0) & (np.abs(x) > 0.5)
+                x[m_] = x[m_] - np.sign(x[m_]) * float(w.int_noise)
+                res.x = x
+                w.count('int_noise')
         return res
     proxy.__name__ = which
     return proxy
